@@ -353,7 +353,19 @@ func C05(tier string) int {
 		{Name: "u2", User: "u2", Basic: basic("u2", "pw2")},
 	}
 	graphs := []string{"g1", "g2"}
-	bulkStreams := [][]string{{}, {"g1"}, {"g2"}, {"g1", "g2"}, {"g2", "g1"}, {"g1", "g1", "g2"}, {"g2", "g1", "g2"}, {"g2", "g2", "g2"}}
+	// every element stream of length <= 3 over the two graphs (15 streams, shortest first): a filter that
+	// carries a verdict from one element to the next needs a particular order, e.g. allowed, denied, denied
+	bulkStreams := [][]string{{}}
+	for l, prev := 1, [][]string{{}}; l <= 3; l++ {
+		var cur [][]string
+		for _, p := range prev {
+			for _, g := range []string{"g1", "g2"} {
+				cur = append(cur, append(append([]string{}, p...), g))
+			}
+		}
+		bulkStreams = append(bulkStreams, cur...)
+		prev = cur
+	}
 	cases := 0
 	distinct := map[string]bool{}
 	var samples []string
